@@ -94,7 +94,8 @@ WorldsOf(Fam) ==
             seed |-> << [S0("u1", 1, TRUE) EXCEPT !.totp = TRUE, !.rc = TRUE],
                         [S0("u2", 2, TRUE) EXCEPT !.sms = 1, !.rc = TRUE] >>] :
              m \in { <<"auth", "totp", "sms", "logout">>, <<"auth", "sms", "totp", "lock", "logout">>,
-                     <<"auth", "otp", "recover", "totp", "sms", "logout">> },
+                     <<"auth", "otp", "recover", "totp", "sms", "logout">>,
+                     <<"auth", "remember", "totp", "sms", "logout">> },     \* (logins then ask to be remembered)
              ot \in BOOLEAN }
     [] Fam = "smsswitch" ->   \* both accounts use SMS (different phones): pending-login switches
          { [cfg |-> [C0 EXCEPT !.modules = <<"auth", "sms", "logout">>],
@@ -113,6 +114,11 @@ WorldsOf(Fam) ==
                pr \in { << [Ev("LoginPost", "b1") EXCEPT !.pid = "u1", !.pw = 1], [Ev("SmsValidate", "b1") EXCEPT !.code = 1],
                            [Ev("Tick", NONE) EXCEPT !.d = 1] >>,
                         << [Ev("LoginPost", "b1") EXCEPT !.pid = "u2", !.pw = 2], [Ev("TotpValidate", "b1") EXCEPT !.tok = 1, !.code = 1] >> } }
+         \* an account that enrolled TOTP after a remembered login, now back on its cookie alone (half-authenticated)
+         \cup { [cfg |-> [C0 EXCEPT !.modules = <<"auth", "remember", "totp", "sms", "recovery", "logout">>],
+                 seed |-> Seed2,
+                 pre |-> << [Ev("LoginPost", "b1") EXCEPT !.pid = "u1", !.pw = 1, !.rm = TRUE], Ev("TotpSetup", "b1"),
+                            [Ev("TotpConfirm", "b1") EXCEPT !.tok = 1, !.code = 1], Ev("DropSession", "b1") >>] }
          \* a plain account, logged in
          \cup { [cfg |-> [C0 EXCEPT !.modules = <<"auth", "totp", "sms", "recovery", "logout">>, !.emailAuth = ea, !.appHandles2FA = ea],
                  seed |-> Seed2, pre |-> << [Ev("LoginPost", "b1") EXCEPT !.pid = "u1", !.pw = 1] >>] : ea \in BOOLEAN }
@@ -158,7 +164,7 @@ LoginEvents ==
 ProbeLogout(c) ==
   { [Ev("Probe", b) EXCEPT !.k = k] : b \in Browsers, k \in {NONE, "alt1", "bare"} } \cup
   { [Ev("Get", b) EXCEPT !.k = "login"] : b \in Browsers } \cup
-  { [Ev("Logout", b) EXCEPT !.method = m] : b \in Browsers, m \in {c.logoutMethod, "GET"} }
+  { [Ev("Logout", b) EXCEPT !.method = m] : b \in Browsers, m \in {c.logoutMethod, "GET", "HEAD"} }
 
 Ticks(ds) == { [Ev("Tick", NONE) EXCEPT !.d = d] : d \in ds }
 \* single units: with whole ticks they reach both sides of every threshold (Thr(k) = G*k + 5) to the unit
@@ -210,7 +216,8 @@ EventsOf(Fam, S, c) ==
                ELSE {})
 
     [] Fam = "twofa" ->
-         { [Ev("LoginPost", b) EXCEPT !.pid = p, !.pw = w] : b \in Browsers, p \in {"u1", "u2"}, w \in {1, 2} }
+         { [Ev("LoginPost", b) EXCEPT !.pid = p, !.pw = w, !.rm = Has(c, "remember")] : b \in Browsers, p \in {"u1", "u2"}, w \in {1, 2} }
+         \cup (IF Has(c, "remember") THEN { Ev("DropSession", "b1") } ELSE {})
          \cup { [Ev("TotpValidate", b) EXCEPT !.tok = 1, !.code = k] : b \in Browsers, k \in {1, 3, -1} }
          \cup { [Ev("TotpValidate", b) EXCEPT !.rc = i, !.g = g] : b \in Browsers, i \in {1}, g \in {1, 2} }
          \cup { [Ev("SmsValidate", b) EXCEPT !.code = k] : b \in Browsers, k \in {0, -1} \cup 1..S.iss["sc"] }
